@@ -254,7 +254,7 @@ def eval_sock(case, rep):
     res = dict(monitors=mon, events=_shape(ev), raw_events=ev, results=results, stream_out=so,
                wall=rep.get('wall'), timing=rep.get('timing'), errors=rep.get('errors', []),
                reordered=_reordered(ev), drain_windows=_drain_windows(ev), nrecv=sum(1 for e in _shape(ev) if e[0] == 'recv'),
-               server_stopped=rep.get('server_stopped'), digests=dig)
+               server_stopped=rep.get('server_stopped'), digests=dig, shutdown_problem=rep.get('shutdown_problem'))
     return res
 
 
@@ -317,7 +317,7 @@ def eval_pipe(case, rep):
     if errs and not mon:
         add('pipe-error', '; '.join(errs))
     n = len(srv.get('sent', [])) + len(cli.get('sent', []))
-    return dict(monitors=mon, events=[('pipe', len(srv.get('sent', [])), len(cli.get('sent', [])))], wall=rep.get('wall'),
+    return dict(monitors=mon, events=[('pipe', len(srv.get('sent', [])), len(cli.get('sent', [])))], wall=rep.get('wall'), timing=rep.get('timing'),
                 nobjects=n, errors=errs, sent=dict(server=srv.get('sent', []), client=cli.get('sent', [])),
                 got=dict(server=srv.get('got', []), client=cli.get('got', [])))
 
